@@ -243,7 +243,11 @@ EscChunks == { <<"a">>, <<"%">>, <<"4","1">>, <<"4">>, <<"c","3">>, <<"%","a","9
   <<"%","e","2","%","8","2","%","a","c">>, <<"%","f","0","%","9","f","%","9","8","%","8","0">>, <<"%","e","2","%","8","2">>,
   <<"u">>, <<"0","0","4","1">>, <<"0","0","e">>, <<"9">>, <<"d","8","0","0">>, <<"u","{">>, <<"}">>, <<"1","F","6","0","0">>,
   <<"1","1","0","0","0","0">>, <<"0","0">>, <<"g">>, <<"%","c","0","%","a","f">>, <<"%","e","d","%","a","0","%","8","0">>,
-  <<"%","f","f">>, <<"2","0","a","c">> }
+  <<"%","f","f">>, <<"2","0","a","c">>,
+  \* whole escapes as one chunk, so that two chunks already put something before / after a complete escape
+  <<"%","4","1">>, <<"%","0","0">>, <<"%","u","0","0","4","1">>, <<"%","u","0","0","e","9">>, <<"%","u","2","0","a","c">>,
+  <<"%","u","{","4","1","}">>, <<"%","u","{","1","F","6","0","0","}">>, <<"%","u","{","0","}">>, <<"%","u","{","d","8","0","0","}">>,
+  <<"%","u","{","1","0","F","F","F","F","}">>, <<"%","u","{","0","0","0","0","4","1","}">> }
 CONSTANT EscLen
 RECURSIVE Seqs(_, _)
 Seqs(S, n) == IF n = 0 THEN {<<>>} ELSE LET r == Seqs(S, n - 1) IN r \cup {Append(x, c) : x \in r, c \in S}
